@@ -115,7 +115,7 @@ func runC03(seed uint64, n int, tier string, outDir string) []*Stats {
 	// hlib.NewRng(seed) and NewRng(seed+1) produce the same stream shifted by
 	// one draw; decorrelate the seeds by hashing first
 	r := NewRng(NewRng(seed).U64() ^ (seed * 0xD6E8FEB86659FD93))
-	cf := NewCoqFile("From V Require Import Common.Base C03.Num C03.SpecOps C03.Tree C03.Fold C03.Harness.")
+	cf := NewCoqFile("From V Require Import Common.Base C03.Num C03.SpecOps C03.Tree C03.Fold C03.MiniJS C03.Stmt C03.Harness.")
 	st := NewStats("c03", seed)
 
 	// --- ToInt32 / ToUint32
@@ -160,6 +160,7 @@ func runC03(seed uint64, n int, tier string, outDir string) []*Stats {
 	cf.AddCases("cmp_cases", "list Z * list Z * bool * bool * bool", "check_cmp", items)
 
 	extraCases(r, n, tier, cf, st)
+	stmtCases(r, n, tier, cf, st)
 
 	// --- glue stream
 	runGlue(r, n, tier, st)
